@@ -1639,6 +1639,29 @@ Theorem eval_mech_eq_spec_refuted_old :
             show_outcome (eval_mech p) = show_outcome (eval_spec p).
 Proof. exists ex_known. split; [vm_compute; reflexivity|]. split; [vm_compute; discriminate|vm_compute; reflexivity]. Qed.
 
+(* a class factory in a static method: the inner class derives a global class; its initialiser and a method use super *)
+Definition ex_static_factory : prog := [
+  SClass (CDecl "P" None None [
+     MDecl KInit "new" ["a"] [SSetField ESelf "f0" (EVar "a")] 1;
+     MDecl KMethod "m" [] [SPrint (EStr "P.m"); SPrint (EGet ESelf "f0"); SReturn (Some ESelf)] 2] 3);
+  SClass (CDecl "F" None (Some "new") [
+     MDecl KStatic "build" ["t"] [
+       SClass (CDecl "I" (Some "P") None [
+          MDecl KInit "new" ["a"] [SPrint (EVar "t"); SExpr (ESuperInvoke "new" [EVar "a"])] 4;
+          MDecl KMethod "m" [] [SPrint (EStr "I.m"); SReturn (Some (ESuperInvoke "m" []))] 5] 6);
+       SReturn (Some (EVar "I"))] 7] 8);
+  SVar "K" (EInvoke (EVar "F") "build" [EStr "cap"]);
+  SVar "x" (EInvoke (EVar "K") "new" [ENum 5]);
+  SPrint (EEq (EInvoke (EVar "x") "m" []) (EVar "x"))].
+
+(* the model variant "Self if any enclosing compiler is a static method" passes the OUTER method's Self (class F) as
+   the receiver of the inner class's super accesses and does not refine the Spec; the current M does *)
+Theorem eval_mech_eq_spec_refuted_any_static :
+  show_outcome (eval_spec ex_static_factory) = "cap~I.m~P.m~5~true#ok" /\
+  show_outcome (eval_mech_any_static ex_static_factory) <> show_outcome (eval_spec ex_static_factory) /\
+  show_outcome (eval_mech ex_static_factory) = show_outcome (eval_spec ex_static_factory).
+Proof. split; [vm_compute; reflexivity|]. split; [vm_compute; discriminate|vm_compute; reflexivity]. Qed.
+
 Definition sample_programs : list prog := [
   ex_hier;
   (ex_hier ++ [SVar "c" (EInvoke (EVar "C") "new" []); SExpr (EInvoke (EVar "c") "m" []);
@@ -1737,3 +1760,4 @@ Print Assumptions exec_class_inv.
 Print Assumptions eval_mech_eq_spec.
 Print Assumptions user_override_of_object_method_wins.
 Print Assumptions eval_mech_eq_spec_refuted_old.
+Print Assumptions eval_mech_eq_spec_refuted_any_static.
